@@ -37,7 +37,7 @@ func c04Check(snap *stack.Snapshot, level stack.Similarity) (merged bool, err er
 		}
 		holdsFirst := false
 		for k, id := range b.IDs {
-			if k > 0 && b.IDs[k-1] == id {
+			if k > 0 && b.IDs[k-1] == id && want[id] < 2 {
 				return false, fmt.Errorf("%s: bucket %d lists goroutine %d twice", levelNames[level], bi, id)
 			}
 			got[id]++
@@ -46,7 +46,10 @@ func c04Check(snap *stack.Snapshot, level stack.Similarity) (merged bool, err er
 				holdsFirst = true
 			}
 		}
-		if b.First != holdsFirst {
+		if b.First != holdsFirst && !(holdsFirst && !b.First && want[firstID] > 1) {
+			// (when the first goroutine's id occurs twice, only the bucket of the occurrence that
+			// is flagged holds "the" first goroutine; that exactly one bucket is flagged is
+			// checked below)
 			return false, fmt.Errorf("%s: bucket %d (ids %v) First=%v but it %s the first goroutine (%d)", levelNames[level], bi, b.IDs, b.First,
 				map[bool]string{true: "holds", false: "does not hold"}[holdsFirst], firstID)
 		}
@@ -207,6 +210,18 @@ var c04Rand = Check[c04Case]{
 			c.First = rapid.IntRange(-1, len(c.D.Gs)-1).Draw(t, "firstAt")
 		}
 		c.CutAfterHeader = oneIn(t, 6, "cutAfterHeader")
+		if len(c.D.Gs) >= 2 && oneIn(t, 6, "duplicateID") {
+			// two processes writing to one stream, a dump pasted twice: ids repeat, and every
+			// occurrence counts
+			k := rapid.IntRange(1, len(c.D.Gs)-1).Draw(t, "dupAt")
+			j := rapid.IntRange(0, k-1).Draw(t, "dupOf")
+			c.D.Gs[k].ID = c.D.Gs[j].ID
+			if rapid.Bool().Draw(t, "dupSameStack") {
+				c.D.Gs[k].Frames = cloneFrames(c.D.Gs[j].Frames)
+				c.D.Gs[k].State, c.D.Gs[k].Creator, c.D.Gs[k].Locked = c.D.Gs[j].State, c.D.Gs[j].Creator, c.D.Gs[j].Locked
+				c.D.Gs[k].ElideAt, c.D.Gs[k].ElideN, c.D.Gs[k].ElideOld, c.D.Gs[k].Unavail = c.D.Gs[j].ElideAt, c.D.Gs[j].ElideN, c.D.Gs[j].ElideOld, c.D.Gs[j].Unavail
+			}
+		}
 		return c
 	},
 	Oracle: c04Oracle,
